@@ -184,10 +184,17 @@ func c14MessageSize(limit, size int) (string, string, bool) {
 	}
 	defer b.close()
 	b.waitFor(time.Second, hasType(protocol.TypePeerList))
-	pad := strings.Repeat("x", size)
-	payload, _ := json.Marshal(map[string]string{"tok": "big", "pad": pad})
-	env := protocol.Envelope{V: 1, Type: "x-verif", MsgID: "m1", To: "b", Payload: payload}
-	raw, _ := json.Marshal(env)
+	// the message is padded so that it has exactly `size` bytes on the wire (or its minimal
+	// length when that is more)
+	mk := func(padLen int) []byte {
+		payload, _ := json.Marshal(map[string]string{"tok": "big", "pad": strings.Repeat("x", padLen)})
+		raw, _ := json.Marshal(protocol.Envelope{V: 1, Type: "x-verif", MsgID: "m1", To: "b", Payload: payload})
+		return raw
+	}
+	raw := mk(0)
+	if size > len(raw) {
+		raw = mk(size - len(raw))
+	}
 	a.sendRaw(websocket.TextMessage, raw)
 	got := b.waitFor(700*time.Millisecond, func(in []received) bool {
 		for _, r := range in {
@@ -271,6 +278,72 @@ func c14MsgRate(rate, burstN, n int, idle time.Duration) (string, string, bool) 
 		return "zero-not-unlimited:ws-msgs-per-sec", fmt.Sprintf("rate limit disabled but only %d of %d messages delivered", delivered, n), true
 	}
 	return "", "", true
+}
+
+// c14RequestRate hammers websocket connects or session creations from this address for about
+// 1.2 s while being refused; what is admitted must stay within burst + rate*elapsed (+1).
+func c14RequestRate(what string, perMin, burstN int) (string, string, bool) {
+	args := []string{"--ws-msgs-per-sec", "0", "--max-sessions", "0", "--max-ws-connections", "0", "--max-receivers-per-sender", "0"}
+	if what == "ws" {
+		args = append(args, "--ws-connects-per-min", fmt.Sprint(perMin), "--ws-connects-burst", fmt.Sprint(burstN), "--session-creates-per-min", "0")
+	} else {
+		args = append(args, "--session-creates-per-min", fmt.Sprint(perMin), "--session-creates-burst", fmt.Sprint(burstN), "--ws-connects-per-min", "0")
+	}
+	srv, err := c14Start(args...)
+	if err != nil {
+		return "server-start", err.Error(), false
+	}
+	defer srv.stop()
+	t0 := time.Now()
+	si := srv.createSession()
+	admitted, refused, tried := 0, 0, 0
+	if what == "session" && si.Status == 201 {
+		admitted++
+	}
+	if si.Code == "" {
+		return "connect", "no session", false
+	}
+	var open []*client
+	defer func() {
+		for _, c := range open {
+			c.close()
+		}
+	}()
+	for time.Since(t0) < 1200*time.Millisecond && tried < 4000 {
+		tried++
+		if what == "ws" {
+			role := "receiver"
+			if tried == 1 {
+				role = "sender"
+			}
+			c, st, err := srv.dial(si.Code, fmt.Sprintf("p%d", tried), role)
+			if err == nil {
+				admitted++
+				open = append(open, c)
+			} else if st == 429 {
+				refused++
+			}
+		} else {
+			s2 := srv.createSession()
+			if s2.Status == 201 {
+				admitted++
+			} else if s2.Status == 429 {
+				refused++
+			}
+		}
+	}
+	elapsed := time.Since(t0)
+	if perMin == 0 {
+		if refused > 0 {
+			return "zero-not-unlimited:" + what + "-per-min", fmt.Sprintf("%d of %d requests refused with the rate limit disabled", refused, tried), true
+		}
+		return "", "", true
+	}
+	allowed := float64(burstN) + float64(perMin)/60*elapsed.Seconds() + 1
+	if float64(admitted) > allowed {
+		return "request-rate-exceeded:" + what, fmt.Sprintf("%s: %d per minute, burst %d: %d requests admitted within %s (bound %.1f) while %d were refused", what, perMin, burstN, admitted, elapsed.Round(time.Millisecond), allowed, refused), true
+	}
+	return "", "", refused > 0
 }
 
 func c14Lifetime(timeout time.Duration) (string, string, bool) {
@@ -369,6 +442,11 @@ func TestVerifC14Server(t *testing.T) {
 		probe{"max-receivers=0 (25 receivers)", func() (string, string, bool) { return c14MaxReceivers(0, 25) }},
 		probe{"max-ws-connections=0 (40 sockets)", func() (string, string, bool) { return c14MaxConns(0, 40) }},
 		probe{"max-message-bytes=2000 size 3000", func() (string, string, bool) { return c14MessageSize(2000, 3000) }},
+		probe{"max-message-bytes=2000 size 2000", func() (string, string, bool) { return c14MessageSize(2000, 2000) }},
+		probe{"max-message-bytes=2000 size 2001", func() (string, string, bool) { return c14MessageSize(2000, 2001) }},
+		probe{"max-message-bytes=2000 size 2014", func() (string, string, bool) { return c14MessageSize(2000, 2014) }},
+		probe{"ws-connects-per-min=60 burst 3", func() (string, string, bool) { return c14RequestRate("ws", 60, 3) }},
+		probe{"session-creates-per-min=120 burst 2", func() (string, string, bool) { return c14RequestRate("session", 120, 2) }},
 		probe{"max-message-bytes=2000 size 1000", func() (string, string, bool) { return c14MessageSize(2000, 1000) }},
 		probe{"max-message-bytes=0 size 100000", func() (string, string, bool) { return c14MessageSize(0, 100000) }},
 		probe{"ws-msgs-per-sec=20 burst=5 n=80", func() (string, string, bool) { return c14MsgRate(20, 5, 80, 0) }},
@@ -423,7 +501,7 @@ func TestVerifC14Server(t *testing.T) {
 	}
 	// generated limit values and burst sizes
 	rapid.Check(t, func(rt *rapid.T) {
-		kind := rapid.SampledFrom([]string{"sessions", "receivers", "conns", "msgsize", "msgrate"}).Draw(rt, "kind")
+		kind := rapid.SampledFrom([]string{"sessions", "receivers", "conns", "msgsize", "msgsize", "msgrate", "reqrate"}).Draw(rt, "kind")
 		lim := rapid.IntRange(0, 4).Draw(rt, "limit")
 		n := rapid.IntRange(8, 32).Draw(rt, "burst")
 		var sig, detail string
@@ -438,7 +516,13 @@ func TestVerifC14Server(t *testing.T) {
 		case "msgsize":
 			limit := rapid.SampledFrom([]int{0, 500, 2000, 70000}).Draw(rt, "bytes")
 			size := rapid.SampledFrom([]int{100, 400, 1900, 2100, 60000, 90000}).Draw(rt, "size")
+			if limit > 0 && rapid.IntRange(0, 2).Draw(rt, "near_limit") > 0 {
+				// sizes at and around the limit itself
+				size = limit + rapid.SampledFrom([]int{-17, -2, -1, 0, 1, 2, 3, 7, 8, 13, 14, 15, 16, 31, 64}).Draw(rt, "delta")
+			}
 			sig, detail, nt = c14MessageSize(limit, size)
+		case "reqrate":
+			sig, detail, nt = c14RequestRate(rapid.SampledFrom([]string{"ws", "session"}).Draw(rt, "what"), rapid.SampledFrom([]int{0, 60, 120, 600}).Draw(rt, "per_min"), rapid.IntRange(1, 6).Draw(rt, "b"))
 		default:
 			rate := rapid.SampledFrom([]int{0, 10, 40}).Draw(rt, "rate")
 			idle := rapid.SampledFrom([]time.Duration{0, 0, 900 * time.Millisecond}).Draw(rt, "idle")
